@@ -55,8 +55,9 @@ def program(crate):
     path = mir_for(crate)
     pk = path + '.pickle'
     prog = None
-    if os.path.exists(pk) and os.path.getmtime(pk) >= os.path.getmtime(path) and \
-            os.path.getmtime(pk) >= os.path.getmtime(M.__file__):
+    import fnroles
+    deps = [path, M.__file__, fnroles.__file__] + ([fnroles.FILE] if os.path.exists(fnroles.FILE) else [])
+    if os.path.exists(pk) and all(os.path.getmtime(pk) >= os.path.getmtime(d) for d in deps):
         try:
             with open(pk, 'rb') as f:
                 prog = pickle.load(f)
@@ -64,6 +65,19 @@ def program(crate):
             prog = None
     if prog is None:
         prog = M.load(path, REPO, crate)
+        prog.src_root = REPO
+        ren = fnroles.renames(prog, crate) if not os.environ.get('VERIF_NO_FNROLES') else []
+        if ren:
+            # crate-private functions recognised (by signature) as renamed: analyse them under their pinned names
+            canon = path + '.canon'
+            with open(path) as f:
+                text = f.read()
+            with open(canon + '.tmp', 'w') as f:
+                f.write(fnroles.rewrite(text, ren, prog))
+            os.replace(canon + '.tmp', canon)
+            prog = M.load(canon, REPO, crate)
+            prog.renamed = [(sc, old, new) for sc, old, new, _ in ren]
+            log(f'[mir] {crate}: renamed private functions recognised by signature: ' + ', '.join(f'{old} (= pinned {new})' for _, old, new, _ in ren))
         try:
             with open(pk + '.tmp', 'wb') as f:
                 pickle.dump(prog, f)
